@@ -1893,4 +1893,194 @@ theorem flip_then_crop {α} (img : List α) (l u : Nat) (hu : u ≤ img.length) 
     rw [List.getElem?_eq_none_iff, List.length_reverse, hlenR]
     omega
 
+/-! ## A regularly acquired kymograph establishes the hypotheses -/
+
+theorem maxList_extr (l : List Int) (hl : l ≠ []) : (∀ x ∈ l, x ≤ maxList l) ∧ maxList l ∈ l := by
+  cases l with
+  | nil => exact absurd rfl hl
+  | cons a as =>
+    have key : ∀ (xs : List Int) (m : Int), (∀ x ∈ m :: xs, x ≤ xs.foldl max m) ∧ xs.foldl max m ∈ m :: xs := by
+      intro xs
+      induction xs with
+      | nil => intro m; simp
+      | cons y ys ih =>
+        intro m
+        obtain ⟨h1, h2⟩ := ih (max m y)
+        simp only [List.foldl_cons]
+        constructor
+        · intro x hx
+          simp only [List.mem_cons] at hx
+          rcases hx with rfl | rfl | hx
+          · have := h1 (max x y) (by simp); omega
+          · have := h1 (max m x) (by simp); omega
+          · exact h1 x (by simp [hx])
+        · simp only [List.mem_cons] at h2 ⊢
+          rcases h2 with h2 | h2
+          · rcases Int.le_total m y with h | h
+            · right; left; rw [h2]; omega
+            · left; rw [h2]; omega
+          · right; right; exact h2
+    have := key (a :: as) a
+    simp only [maxList, List.headD_cons]
+    constructor
+    · intro x hx; exact this.1 x (List.mem_cons_of_mem _ hx)
+    · simpa using this.2
+
+theorem regular_column (t0 : Int) (P L k dead : Nat) (dt : Int) (j : Nat) (hj : j < L) :
+    column (regularImg t0 P L k dead dt) j = (List.range P).map fun r => regPix t0 P k dead dt r j := by
+  unfold column regularImg
+  rw [List.filterMap_map]
+  induction (List.range P) with
+  | nil => rfl
+  | cons r rs ih => simp [hj, ih]
+
+
+theorem regular_numCols (t0 : Int) (P L k dead : Nat) (dt : Int) (hP : 0 < P) :
+    numCols (regularImg t0 P L k dead dt) = L := by
+  unfold numCols regularImg
+  cases P with
+  | zero => omega
+  | succ P => simp [List.range_succ_eq_map]
+
+theorem mul_mono (a b : Nat) (c : Int) (hc : 0 ≤ c) (h : a ≤ b) : (a : Int) * c ≤ (b : Int) * c :=
+  Int.mul_le_mul_of_nonneg_right (by omega) hc
+
+/-- line range `j` of a regular kymograph: starts with its first sample, ends one sample after its last used one -/
+theorem regular_range (t0 : Int) (P L k dead : Nat) (dt : Int) (hP : 0 < P) (hk : 0 < k) (hdt : 0 < dt) (j : Nat) (hj : j < L) :
+    (lineRanges (regularImg t0 P L k dead dt) dt)[j]? =
+      some (t0 + ((j * (P * k + dead) : Nat) : Int) * dt, t0 + ((j * (P * k + dead) + P * k : Nat) : Int) * dt) := by
+  unfold lineRanges
+  rw [regular_numCols _ _ _ _ _ _ hP, List.getElem?_map, List.getElem?_range hj]
+  simp only [Option.map_some, Option.some.injEq, Prod.mk.injEq]
+  constructor
+  · unfold regularImg
+    cases P with
+    | zero => omega
+    | succ P => simp [List.range_succ_eq_map, hj, regPix]
+  · rw [regular_column _ _ _ _ _ _ _ hj, List.map_map]
+    have hne : (List.range P).map ((·.tmax) ∘ fun r => regPix t0 P k dead dt r j) ≠ [] := by
+      cases P with
+      | zero => omega
+      | succ P => simp [List.range_succ_eq_map]
+    obtain ⟨hub, hmem⟩ := maxList_extr _ hne
+    -- the last pixel of the line is in the column, and no pixel ends later
+    have hlast : t0 + ((j * (P * k + dead) + (P - 1) * k + (k - 1) : Nat) : Int) * dt ∈
+        (List.range P).map ((·.tmax) ∘ fun r => regPix t0 P k dead dt r j) := by
+      simp only [List.mem_map, List.mem_range, Function.comp_apply]
+      exact ⟨P - 1, by omega, rfl⟩
+    have h1 := hub _ hlast
+    simp only [List.mem_map, List.mem_range, Function.comp_apply] at hmem
+    obtain ⟨r, hr, hre⟩ := hmem
+    have h2 : maxList ((List.range P).map ((·.tmax) ∘ fun r => regPix t0 P k dead dt r j)) ≤
+        t0 + ((j * (P * k + dead) + (P - 1) * k + (k - 1) : Nat) : Int) * dt := by
+      rw [← hre]
+      simp only [regPix]
+      have : r * k ≤ (P - 1) * k := Nat.mul_le_mul_right k (by omega)
+      have := mul_mono (j * (P * k + dead) + r * k + (k - 1)) (j * (P * k + dead) + (P - 1) * k + (k - 1)) dt (by omega) (by omega)
+      omega
+    have e : ((j * (P * k + dead) + P * k : Nat) : Int) = ((j * (P * k + dead) + (P - 1) * k + (k - 1) : Nat) : Int) + 1 := by
+      have : P * k = (P - 1) * k + k := by
+        have : P = (P - 1) + 1 := by omega
+        conv => lhs; rw [this, Nat.add_mul, Nat.one_mul]
+      omega
+    rw [e, Int.add_mul]
+    omega
+
+
+theorem regular_ranges (t0 : Int) (P L k dead : Nat) (dt : Int) (hP : 0 < P) (hk : 0 < k) (hdt : 0 < dt) :
+    lineRanges (regularImg t0 P L k dead dt) dt = (List.range L).map fun j =>
+      (t0 + ((j * (P * k + dead) : Nat) : Int) * dt, t0 + ((j * (P * k + dead) + P * k : Nat) : Int) * dt) := by
+  apply List.ext_getElem?
+  intro j
+  by_cases hj : j < L
+  · rw [regular_range t0 P L k dead dt hP hk hdt j hj, List.getElem?_map, List.getElem?_range hj]; rfl
+  · have h1 : (lineRanges (regularImg t0 P L k dead dt) dt).length = L := by
+      simp [lineRanges, regular_numCols _ _ _ _ _ _ hP]
+    rw [List.getElem?_eq_none_iff.mpr (by omega), List.getElem?_eq_none_iff.mpr (by simp; omega)]
+
+/-- **A regularly acquired kymograph establishes the hypotheses the slice theorems assume**: its lines lie inside
+    `[t0 − lead·dt, t0 + L·(P·k + dead)·dt]` (the window of its info wave), in order, not overlapping (`KWf`, hence sorted
+    starts), and they start one line period `(P·k + dead)·dt` apart (hypothesis of `slice_line_time`). -/
+theorem regular_establishes (t0 : Int) (P L k dead lead : Nat) (dt : Int) (hP : 0 < P) (hk : 0 < k) (hdt : 0 < dt) :
+    RangesOk (lineRanges (regularImg t0 P L k dead dt) dt) (t0 - (lead : Int) * dt)
+      (t0 + ((L * (P * k + dead) : Nat) : Int) * dt) ∧
+    ∀ j (h : j + 1 < (lineRanges (regularImg t0 P L k dead dt) dt).length),
+      (lineRanges (regularImg t0 P L k dead dt) dt)[j + 1].1 - (lineRanges (regularImg t0 P L k dead dt) dt)[j].1 =
+        ((P * k + dead : Nat) : Int) * dt := by
+  have hPk : 1 ≤ P * k := Nat.mul_pos hP hk
+  have hlead : 0 ≤ (lead : Int) * dt := Int.mul_nonneg (by omega) (by omega)
+  constructor
+  · rw [regular_ranges t0 P L k dead dt hP hk hdt]
+    constructor
+    · rw [List.pairwise_map]
+      refine List.Pairwise.imp ?_ List.pairwise_lt_range
+      intro j j' hjj
+      simp only
+      have h1 : (j + 1) * (P * k + dead) ≤ j' * (P * k + dead) := Nat.mul_le_mul_right _ (by omega)
+      rw [Nat.add_mul, Nat.one_mul] at h1
+      have := mul_mono (j * (P * k + dead) + P * k) (j' * (P * k + dead)) dt (by omega) (by omega)
+      omega
+    · intro r hr
+      simp only [List.mem_map, List.mem_range] at hr
+      obtain ⟨j, hj, rfl⟩ := hr
+      simp only
+      have h0 : 0 ≤ ((j * (P * k + dead) : Nat) : Int) * dt := Int.mul_nonneg (by omega) (by omega)
+      have h1 := mul_mono (j * (P * k + dead) + 1) (j * (P * k + dead) + P * k) dt (by omega) (by omega)
+      have e1 : ((j * (P * k + dead) + 1 : Nat) : Int) * dt = ((j * (P * k + dead) : Nat) : Int) * dt + dt := by
+        rw [Int.natCast_add, Int.add_mul]; simp
+      have h2 : (j + 1) * (P * k + dead) ≤ L * (P * k + dead) := Nat.mul_le_mul_right _ (by omega)
+      rw [Nat.add_mul, Nat.one_mul] at h2
+      have h3 := mul_mono (j * (P * k + dead) + P * k) (L * (P * k + dead)) dt (by omega) (by omega)
+      omega
+  · intro j h
+    have hL : (lineRanges (regularImg t0 P L k dead dt) dt).length = L := by
+      simp [lineRanges, regular_numCols _ _ _ _ _ _ hP]
+    have g1 := regular_range t0 P L k dead dt hP hk hdt (j + 1) (by omega)
+    have g0 := regular_range t0 P L k dead dt hP hk hdt j (by omega)
+    rw [List.getElem?_eq_getElem h] at g1
+    rw [List.getElem?_eq_getElem (by omega)] at g0
+    injection g1 with g1
+    injection g0 with g0
+    rw [g1, g0]
+    simp only
+    have e : (((j + 1) * (P * k + dead) : Nat) : Int) = ((j * (P * k + dead) : Nat) : Int) + ((P * k + dead : Nat) : Int) := by
+      rw [Nat.add_mul, Nat.one_mul]; omega
+    rw [e, Int.add_mul]; omega
+
+
+theorem regular_pixAt (t0 : Int) (P L k dead : Nat) (dt : Int) (r c : Nat) (p : Pix)
+    (h : pixAt (regularImg t0 P L k dead dt) r c = some p) : r < P ∧ c < L ∧ p = regPix t0 P k dead dt r c := by
+  unfold pixAt regularImg at h
+  rw [List.getElem?_map] at h
+  by_cases hr : r < P
+  · rw [List.getElem?_range hr] at h
+    simp only [Option.map_some, Option.bind_some, List.getElem?_map] at h
+    by_cases hc : c < L
+    · rw [List.getElem?_range hc] at h
+      simp only [Option.map_some, Option.some.injEq] at h
+      exact ⟨hr, hc, h.symm⟩
+    · rw [List.getElem?_eq_none_iff.mpr (by simp; omega)] at h; cases h
+  · rw [List.getElem?_eq_none_iff.mpr (by simp; omega)] at h; cases h
+
+/-- … and its pixels follow each other `k·dt` apart along a line (hypothesis of `selecting_program_pixel_time`) -/
+theorem regular_row_step (t0 : Int) (P L k dead : Nat) (dt : Int) :
+    RowStep (regularImg t0 P L k dead dt) ((k : Int) * dt) := by
+  intro r c p q hp hq
+  obtain ⟨_, _, rfl⟩ := regular_pixAt _ _ _ _ _ _ _ _ _ hp
+  obtain ⟨_, _, rfl⟩ := regular_pixAt _ _ _ _ _ _ _ _ _ hq
+  simp only [Pix.tmean, regPix]
+  have e1 : ∀ a : Nat, t0 + ((a + (k - 1) : Nat) : Int) * dt - (t0 + ((a : Nat) : Int) * dt) = ((k - 1 : Nat) : Int) * dt := by
+    intro a; rw [Int.natCast_add, Int.add_mul]; omega
+  rw [e1, e1]
+  have e2 : ((c * (P * k + dead) + (r + 1) * k : Nat) : Int) * dt =
+      ((c * (P * k + dead) + r * k : Nat) : Int) * dt + (k : Int) * dt := by
+    rw [← Int.add_mul]; congr 1
+    rw [Nat.add_mul, Nat.one_mul]; omega
+  rw [e2]; omega
+
+/-- non-vacuity / instance: `exKymo`'s timing is that of a regular kymograph with 2 pixels of 2 samples, 6 dead samples,
+    10 ns period (its counts aside) -/
+example : (regularImg 100 2 3 2 6 10).map (fun r => r.map fun p => (p.tmin, p.tmax)) =
+    exKymo.img.map (fun r => r.map fun p => (p.tmin, p.tmax)) := by decide +kernel
+
 end Verif.C06
